@@ -239,7 +239,7 @@ def calculate_pfid_matrix_gaussian_irf(
         An array of the real and imaginary part of the oscillation matrix,
         the shape being (len(model_axis), len(frequencies)).
     """
-    shifted_axis = model_axis - center - shift
+    shifted_axis = model_axis - (center - shift)
     # For calculations using the negative rates we use the time axis
     # from the beginning up to 5 σ from the irf center
     # this is to guard again overflows
